@@ -1211,3 +1211,90 @@ pub(crate) fn c_extend_ref<const N: usize, const L: usize>() {
 pub(crate) fn fc_add_mod() { let _ = crate::add_mod(kani::any(), kani::any(), kani::any()); }
 #[cfg(kani)]
 pub(crate) fn fc_sub_mod() { let _ = crate::sub_mod(kani::any(), kani::any(), kani::any()); }
+
+// ----- elements WITHOUT drop glue (mem::needs_drop::<T>() == false, but not Copy): C10 C09 -----------------
+
+pub(crate) struct Plain { pub id: u8 }
+
+pub(crate) fn any_plainbuf<const N: usize>() -> CircularBuffer<N, Plain> {
+    let mut b = CircularBuffer::<N, Plain>::new();
+    if N == 0 { return b; }
+    b.start = nd::usize_in(0, N - 1);
+    b.size = nd::usize_in(0, N);
+    let mut i = 0;
+    while i < b.size { b.items[phys(b.start, i, N)].write(Plain { id: i as u8 }); i += 1; }
+    b
+}
+
+fn plain_ids<const N: usize>(b: &CircularBuffer<N, Plain>) -> Seq {
+    let mut s = Seq::new();
+    check!(wf(b), "[C09,C10] representation invariant broken (start/size out of range)");
+    let st = if N > 0 && b.start < N { b.start } else { 0 };
+    let sz = if b.size <= N { b.size } else { N };
+    let mut i = 0;
+    while i < sz { s.push(unsafe { (*b.items[phys(st, i, N)].as_ptr()).id }); i += 1; }
+    s
+}
+
+/// drain over a type without destructor: same contents contract (C09); a leaked drain leaves a buffer disjoint
+/// from the elements handed out (C10) - unique tokens without Drop can still not be duplicated
+pub(crate) fn c_drain_plain<const N: usize>() {
+    let mut b = any_plainbuf::<N>();
+    let old = plain_ids(&b);
+    let (lo, hi) = (any_bound(), any_bound());
+    let rng = bounds_to_range(lo, hi, old.len);
+    nd::assume(rng.is_some());
+    let (a, e) = rng.unwrap();
+    let mut m = sub_seq(&old, a, e);
+    let mut held = Seq::new();
+    let leak = nd::any_bool();
+    {
+        let mut d = b.drain((lo, hi));
+        let steps = nd::usize_in(0, N + 1);
+        let mut k = 0;
+        while k < steps {
+            check!(d.len() == m.len, "[C09] drain (no drop glue): len() differs from the number of elements not yet produced");
+            if nd::any_bool() { let r = d.next().map(|p| p.id); let mr = m.pop_front(); check!(r == mr, "[C09] drain (no drop glue): next() yields the wrong element"); if let Some(x) = r { held.push(x); } }
+            else { let r = d.next_back().map(|p| p.id); let mr = m.pop_back(); check!(r == mr, "[C09] drain (no drop glue): next_back() yields the wrong element"); if let Some(x) = r { held.push(x); } }
+            k += 1;
+        }
+        if leak { core::mem::forget(d); } else { drop(d); }
+    }
+    let new = plain_ids(&b);
+    if leak {
+        let mut i = 0;
+        while i < new.len {
+            check!(old.contains(new.a[i]) && !held.contains(new.a[i]), "[C10] leaked drain (no drop glue): the buffer still holds an element that was already handed out (or a foreign one)");
+            let mut j = 0; while j < i { check!(new.a[j] != new.a[i], "[C10] leaked drain (no drop glue): the buffer holds an element twice"); j += 1; }
+            i += 1;
+        }
+    } else {
+        let mut want = sub_seq(&old, 0, a); want.append(&sub_seq(&old, e, old.len));
+        check!(new.eq(&want), "[C01,C09] drain (no drop glue): buffer is not (elements before the range) ++ (elements after the range)");
+    }
+    nd::reached();
+    core::mem::forget(b);
+}
+
+/// the core mutators on elements without drop glue (guards against specialisations on mem::needs_drop)
+pub(crate) fn c_ops_plain<const N: usize>() {
+    let mut b = any_plainbuf::<N>();
+    let old = plain_ids(&b);
+    let op = nd::usize_in(0, 8);
+    let arg = nd::any_usize();
+    let mut m = old;
+    let fresh = 20u8;
+    if op == 0 { let r = b.push_back(Plain { id: fresh }).map(|p| p.id); let mr = m.push_back_capped(fresh, N); check!(r == mr, "[C01,C02] push_back (no drop glue): wrong displaced element"); }
+    else if op == 1 { let r = b.push_front(Plain { id: fresh }).map(|p| p.id); let mr = m.push_front_capped(fresh, N); check!(r == mr, "[C01,C02] push_front (no drop glue): wrong displaced element"); }
+    else if op == 2 { let r = b.pop_back().map(|p| p.id); let mr = m.pop_back(); check!(r == mr, "[C01] pop_back (no drop glue): wrong element"); }
+    else if op == 3 { let r = b.pop_front().map(|p| p.id); let mr = m.pop_front(); check!(r == mr, "[C01] pop_front (no drop glue): wrong element"); }
+    else if op == 4 { let r = b.remove(arg).map(|p| p.id); let mr = m.remove(arg); check!(r == mr, "[C01] remove (no drop glue): wrong element"); }
+    else if op == 5 { b.truncate_back(arg); m.keep_first(arg); }
+    else if op == 6 { b.truncate_front(arg); m.keep_last(arg); }
+    else if op == 7 { b.clear(); m.keep_first(0); }
+    else { let r = b.swap_remove_front(arg).map(|p| p.id); let mr = if arg < m.len { m.swap(arg, 0); m.pop_front() } else { None }; check!(r == mr, "[C01] swap_remove_front (no drop glue): wrong element"); }
+    let new = plain_ids(&b);
+    check!(new.eq(&m) && b.len() == m.len, "[C01] operation on elements without drop glue: contents differ from the capped-deque model");
+    nd::reached();
+    core::mem::forget(b);
+}
